@@ -979,3 +979,13 @@ func checkListing(op *Op, got []string, lerr error, extra int, must, may []strin
 	}
 	return true, ""
 }
+
+// WellFormed reports whether data is well-formed for media type mt (always true for
+// media types the registry treats as opaque).
+func WellFormed(mt string, data []byte) bool {
+	_, _, _, ok := parseRefs(mt, data)
+	return ok
+}
+
+// HasContent reports whether the named repository holds any blob, manifest or tag.
+func (m *Model) HasContent(repo string) bool { return m.repo(repo).hasContent() }
